@@ -574,10 +574,12 @@ class Dataset:
         if not isinstance(other, Dataset):
             return NotImplemented
 
-        self_str_rankings: List[str] = [str(ranking).strip().replace(" ", "") for ranking in self.rankings]
-        other_str_rankings: List[str] = [str(ranking).strip().replace(" ", "") for ranking in other.rankings]
+        # each ranking is compared as a tuple of frozen sets: the textual form of a bucket depends on the order its
+        # members are iterated, and does not distinguish the elements "a,b" and "a", "b"
+        self_rankings: List[Tuple] = [tuple(frozenset(bucket) for bucket in ranking) for ranking in self.rankings]
+        other_rankings: List[Tuple] = [tuple(frozenset(bucket) for bucket in ranking) for ranking in other.rankings]
 
-        return Counter(self_str_rankings) == Counter(other_str_rankings)
+        return Counter(self_rankings) == Counter(other_rankings)
 
 
 class DatasetSelector:
